@@ -331,10 +331,13 @@ impl Check for C11 {
         };
         let thorough = inp.tier == Tier::Thorough;
         let small = text.len() <= 1500;
+        // every prefix and every token fault of a text costs O(len^2) bytes of cases: exhaustive up to 6 000 bytes in
+        // the thorough tier (1 500 in the quick tier), sampled beyond (G-lef texts with 400-vertex polygons reach 30 KB)
+        let exhaustive = small || (inp.tier == Tier::Thorough && text.len() <= 6000);
         let mut cases: Vec<(String, Vec<u8>)> = Vec::new();
         cases.push(("valid".into(), text.clone().into_bytes()));
         let b = text.as_bytes();
-        if small || thorough {
+        if exhaustive {
             for t in 0..b.len() {
                 cases.push((format!("prefix@{}", t), b[..t].to_vec()));
             }
@@ -345,8 +348,10 @@ impl Check for C11 {
             }
         }
         let toks = tokenize(&text);
+        let keep_one_in = if exhaustive { 1 } else { 4u64.max(text.len() as u64 / 1500) };
         for i in 0..toks.len() {
-            if !(small || thorough) && wt.draw(4) != 0 {
+            tick();
+            if keep_one_in > 1 && wt.draw(keep_one_in) != 0 {
                 continue;
             }
             for (l, t) in token_faults(&text, &toks, i) {
